@@ -269,6 +269,7 @@ pub open spec fn sp_xz_footer_ok(t: Seq<u8>, index_size: nat, check: u8) -> bool
 }
 
 /// a whole single-stream .xz file
+#[verifier::opaque]
 pub open spec fn sp_xz(f: Seq<u8>) -> XzRes {
     if !sp_xz_header_ok(f) { XzRes::Bad }
     else {
@@ -629,6 +630,7 @@ pub proof fn lemma_xz_roundtrip(e: Seq<u8>, data: Seq<u8>)
         enc_xz_index(12 + e.len(), data.len()).len() / 4 - 1 <= 0xFFFF_FFFF,
     ensures sp_xz(enc_xz_file(e, data.len())) == (XzRes::Good { out: data }),
 {
+    reveal(sp_xz);
     let n = data.len();
     let u: nat = 12 + e.len();
     let h = enc_xz_header(0);
@@ -649,4 +651,14 @@ pub proof fn lemma_xz_roundtrip(e: Seq<u8>, data: Seq<u8>)
     let ki = (idx.len() - 1) as nat;
     assert(f.skip((ip + ki) as int) =~= ft);
     lemma_xz_rt_footer(idx.len());
+}
+
+/// a 64-bit value needs at most 10 groups of 7 bits; values below 2^63 need at most 9
+pub proof fn lemma_enc_mb_len_u64(v: u64)
+    requires v < 0x8000_0000_0000_0000,
+    ensures enc_mb(v as nat).len() <= 9,
+{
+    lemma_shl64(63);
+    assert((1u64 << 63) == 0x8000_0000_0000_0000u64) by (bit_vector);
+    lemma_enc_mb_len(v as nat, 9);
 }
